@@ -749,7 +749,7 @@ def _random_op_once(rng, w, classes, default_only, names, idx, flat_index):
             m = len(E[c])
             if m:
                 i, j = rng.randrange(m), rng.randrange(m)
-                if float(E[c][i].data["radius"]) + float(E[c][j].data["radius"]) > 0:
+                if float(E[c][i].data["radius"]) + float(E[c][j].data["radius"]) > 0 and _merge_keeps_valid(E[c][i], E[c][j]):
                     return ("Merge", c, i, j, rng.random() < 0.5, DUMMY)
         if n == "New":
             if len(H) >= MAXTAB:
@@ -833,6 +833,8 @@ def _random_op_once(rng, w, classes, default_only, names, idx, flat_index):
             i, j = idx(range(m)), idx(range(m))
             if i < m and j < m and float(E[c][i].data["radius"]) + float(E[c][j].data["radius"]) == 0:
                 return None      # merging two vanished droplets divides by zero (outside this property)
+            if i < m and j < m and not _merge_keeps_valid(E[c][i], E[c][j]):
+                return None      # merge() does not re-validate: it would move an axisymmetric droplet off its axis
             return ("Merge", c, i, j, rng.random() < 0.5, DUMMY)
         if n == "TcNew":
             if len(T) >= 6 or len(E) >= MAXTAB - 2:
@@ -937,6 +939,15 @@ def _random_op_once(rng, w, classes, default_only, names, idx, flat_index):
             m = len(TV[j]) if j < len(TV) else 0
             return ("TlistSet", j, idx(range(m)), dyadic(rng, 0, 8, 1))
     return None
+
+
+def _merge_keeps_valid(di, dj):
+    """merge() writes the volume-weighted position without calling check_data(); for an axisymmetric droplet the
+    partner must lie on the z axis too, otherwise every later property setter of the result raises"""
+    if type(di).__name__.endswith("AxisSym"):
+        p = np.atleast_1d(dj.data["position"])
+        return len(p) == 3 and p[0] == 0 and p[1] == 0
+    return True
 
 
 def value_flat(v):
@@ -1456,9 +1467,9 @@ def oracle_run(ops, rng=None, queries=True):
                 d = pos[pi]
                 vals0 = [value_of(x) for x in pos]
                 r0 = float(d.data["radius"])
-                d.radius = r0 + 1.0
+                d.data["radius"] = r0 + 1.0      # through the droplet's own record, no validation involved
                 vals1 = [value_of(x) for x in pos]
-                d.radius = r0
+                d.data["radius"] = r0
                 diff = [j for j in range(len(pos)) if vals0[j] != vals1[j]]
                 if diff != [pi]:
                     return (f"{where}: changing the radius of the droplet at position {pi} changed positions {diff} "
@@ -1478,7 +1489,11 @@ def shrink(ops, fails):
     while i < len(ops) and budget > 0:
         cand = ops[:i] + ops[i + 1:]
         budget -= 1
-        if fails(cand):
+        try:
+            still = bool(fails(cand))
+        except Exception:  # noqa  an exception while replaying a candidate = "does not reproduce"
+            still = False
+        if still:
             ops = cand
         else:
             i += 1
@@ -1555,7 +1570,10 @@ def _oracle_violation(ctx, ops, why, seen):
         except Exception:  # noqa
             return False
     small = shrink([o for o in ops if _is_default(o)], fails)
-    msg = oracle_run(small, random.Random(0)) or why
+    try:
+        msg = oracle_run(small, random.Random(0)) or why
+    except Exception as ex:  # noqa  never let the search crash the check
+        msg = f"{why} (oracle raised {type(ex).__name__}: {ex} on the stored sequence)"
     key = json.dumps(ops_to_json(small))
     if key in seen:
         return
